@@ -23,7 +23,8 @@ the fragment of the language for which the compiler-correctness theorem exists
   neither a type name nor bound; `no_identifier_creates_binding_failure`: every identifier of `e` then
   resolves to a type value or to the value it is bound to, for all trees.)
 
-NOT covered (`…_partial`): the trees outside the fragment — type patterns of `match`, map literals,
+NOT covered here (`…_partial`; see `Theorems/C17Sem2.lean` for the larger fragment `Frag2`, which has them): the
+trees outside the fragment — type patterns of `match`, map literals,
 f-strings, member access / index / calls / macros (so: call arguments and receivers, macro ranges and bodies,
 f-string segments, index expressions, map keys and values of the property text) — and stored programs
 reached through identifiers (`NoProgs`; `paramsClosure` of DESIGN §7 is `params` there).  For those the
